@@ -45,6 +45,8 @@ def truthy(I, v):
     if isinstance(v, VBag):
         x = core.fresh('bx', v.ek.sorts()[0])
         return z3.Exists([x], z3.Select(v.arr, x) > 0)
+    if isinstance(v, VSet) and v.arr is None:
+        return z3.BoolVal(False)
     if isinstance(v, VSet):
         x = core.fresh('sx', v.ek.sorts()[0])
         return z3.Exists([x], z3.Select(v.arr, x))
@@ -131,6 +133,8 @@ def contains(I, item, coll):
             raise Unsupported('non-str in str')
         return z3.Contains(coll.t, item.t)
     if isinstance(coll, VSet):
+        if coll.arr is None:
+            return z3.BoolVal(False)
         return z3.Select(coll.arr, coll.ek.unwrap(item)[0])
     if isinstance(coll, VBag):
         return z3.Select(coll.arr, coll.ek.unwrap(item)[0]) > 0
@@ -599,6 +603,21 @@ def list_slice(I, lv, lo, hi):
 
 
 def set_method(I, sv, name, args, kwargs):
+    if sv.arr is None:
+        # `set()` whose element kind is not known yet: adopt it from the first argument
+        a0 = args[0] if args else None
+        if isinstance(a0, (VSet, VBag)):
+            sv = VSet(a0.ek, z3.K(a0.ek.sorts()[0], z3.BoolVal(False)), sv.loc)
+        elif isinstance(a0, (VCList, VTuple, VGen)) and not a0.items:
+            return NONE, None
+        elif isinstance(a0, (VCList, VTuple, VGen)):
+            k0 = kind_of(a0.items[0])
+            sv = VSet(k0, z3.K(k0.sorts()[0], z3.BoolVal(False)), sv.loc)
+        elif a0 is not None and name in ('add', 'discard', 'remove'):
+            k0 = kind_of(a0)
+            sv = VSet(k0, z3.K(k0.sorts()[0], z3.BoolVal(False)), sv.loc)
+        else:
+            raise Unsupported('set.%s on an empty set of unknown element kind' % name)
     ek = sv.ek
     if name == 'add':
         return NONE, VSet(ek, z3.Store(sv.arr, ek.unwrap(args[0])[0], True), sv.loc)
@@ -615,6 +634,13 @@ def set_method(I, sv, name, args, kwargs):
         return NONE, VSet(ek, z3.K(ek.sorts()[0], z3.BoolVal(False)), sv.loc)
     if name == 'update':
         o = args[0]
+        if isinstance(o, VBag):
+            x = core.fresh('u', ek.sorts()[0])
+            new = core.fresh('union', sv.arr.sort())
+            I.assume(z3.ForAll([x], z3.Select(new, x) == z3.Or(z3.Select(sv.arr, x), z3.Select(o.arr, x) > 0)))
+            return NONE, VSet(ek, new, sv.loc)
+        if isinstance(o, VSet) and o.arr is None:
+            return NONE, VSet(ek, sv.arr, sv.loc)
         if isinstance(o, VSet):
             x = core.fresh('u', ek.sorts()[0])
             new = core.fresh('union', sv.arr.sort())
